@@ -158,7 +158,18 @@ func runExec(c *Ctx) {
 
 	// the zeroing store: funcVertex.Func = &copy
 	var zstore *ssa.Store
-	core.Instrs(planner, func(in ssa.Instruction) {
+	// lifted to the planner: the instruction itself, or the one call of the private helper it lives in
+	anchor1 := func(in ssa.Instruction) ssa.Instruction {
+		if in == nil {
+			return nil
+		}
+		as, _ := p.Anchors(in, planner)
+		if len(as) == 1 {
+			return as[0]
+		}
+		return nil
+	}
+	p.RegionInstrs(planner, func(in ssa.Instruction) {
 		if st, ok := in.(*ssa.Store); ok {
 			if fr, ok := core.AsFieldAddr(st.Addr); ok && fr.Owner == kinds.Func && core.TypeStr(st.Val.Type()) == "*Func" {
 				zstore = st
@@ -199,14 +210,14 @@ func runExec(c *Ctx) {
 			"before the planning resolver runs, every function vertex of the graph gets a fresh copy of its Func whose body is the zero-producing stand-in",
 			fmt.Sprintf("fresh-copy=%v copied-from-vertex=%v body-replaced-by-zero-stand-in=%v", isAlloc, copyOK, bodyOK))
 		// unconditional for every func vertex of that graph: guards = only the type assertion; iterates Vertices(graph)
-		lits := core.Lits(core.Guards(zstore.Block()))
+		lits := p.ILits(zstore.Block())
 		onlyAssert, overVertices := true, false
 		for _, l := range lits {
 			switch {
 			case l.Kind == "ok" && l.Pol:
 				if ta, ok := l.Of.(*ssa.TypeAssert); ok && core.NamedOf(ta.AssertedType) == kinds.Func {
 					// element of Vertices(g)
-					if r, ok := core.Root(ta.X).(*ssa.Call); ok && core.CalleeName(r.Common()) == core.GVertices && r.Common().Args[0] == gArg {
+					if r, ok := core.Root(ta.X).(*ssa.Call); ok && core.CalleeName(r.Common()) == core.GVertices && p.Bind(r.Common().Args[0]) == gArg {
 						overVertices = true
 					}
 					continue
@@ -226,19 +237,51 @@ func runExec(c *Ctx) {
 		// the loop precedes the resolver call on every path: its Vertices() call dominates, and no path from the
 		// graph builder call to the resolver call avoids the loop header
 		var vcall ssa.Instruction
-		for _, ci := range core.Calls(planner, core.GVertices) {
-			if ci.Common().Args[0] == gArg && core.InstrDominates(ci, zstore) {
+		for _, ci := range p.RegionCalls(planner, core.GVertices) {
+			if p.Bind(ci.Common().Args[0]) == gArg && ci.Parent() == zstore.Parent() && core.InstrDominates(ci, zstore) {
 				vcall = ci
 			}
 		}
-		dom := vcall != nil && core.InstrDominates(vcall, resCall) && !core.Reachable(resCall.Block(), zstore.Block(), nil)
+		zAnchor := anchor1(zstore)
+		// the resolver call cannot be followed by (another round of) the zeroing
+		again := true
+		if zAnchor != nil {
+			if zAnchor.Block() == resCall.Block() {
+				again = false
+				for _, sb := range resCall.Block().Succs {
+					if core.Reachable(sb, resCall.Block(), nil) {
+						again = true
+					}
+				}
+				again = again || core.InstrIndex(zAnchor) > core.InstrIndex(resCall)
+			} else {
+				again = core.Reachable(resCall.Block(), zAnchor.Block(), nil)
+			}
+		}
+		dom := vcall != nil && zAnchor != nil && p.IDominates(vcall, resCall, planner) && !again
 		c.R.Add("EXEC-X2", "planner|zeroing-before-resolve", "planner", p.InstrPos(resCall), dom,
 			"the zeroing loop runs to completion before the planning resolver is called", fmt.Sprintf("ok=%v", dom))
 		// nothing adds function vertices between the loop and the resolver call
 		added := false
-		for _, ci := range core.Calls(planner) {
+		vAnchor := anchor1(vcall)
+		for _, ci := range p.RegionCalls(planner) {
 			n := core.CalleeName(ci.Common())
-			if (n == core.GAdd || n == core.GAddOverwrite) && vcall != nil && core.CanFollow(vcall, ci) && core.CanFollow(ci, resCall) {
+			if n != core.GAdd && n != core.GAddOverwrite {
+				continue
+			}
+			a := anchor1(ci)
+			if a == nil || vAnchor == nil {
+				added = true
+				continue
+			}
+			if a == vAnchor {
+				// inside the same helper as the loop
+				if ci.Parent() == vcall.Parent() && core.CanFollow(vcall, ci) {
+					added = true
+				}
+				continue
+			}
+			if core.CanFollow(vAnchor, a) && core.CanFollow(a, resCall) {
 				added = true
 			}
 		}
@@ -393,6 +436,16 @@ func runExec(c *Ctx) {
 				n++
 				caller := site.Parent()
 				if allowed[caller] {
+					continue
+				}
+				// a private helper (step) of a designated caller
+				inStep := false
+				for a := range allowed {
+					if a != nil && p.PrivateHelper(core.Outer(caller)) && p.InRegion(caller, a) {
+						inStep = true
+					}
+				}
+				if inStep {
 					continue
 				}
 				if viaClosure && caller.Parent() != nil && c.escapingClosure(caller) {
